@@ -13,7 +13,7 @@
    The network theorems hold for every coefficient type (they only need the constant 0); the algebra is
    stated for Q and for any commutative ring.  The model is tied to /repo by the correspondence run. *)
 From Coq Require Import List Bool Arith ZArith QArith String Permutation Sorted Ring_theory Setoid.
-From ACN Require Import Base.Num Model.Current Model.Network Proofs.Current Proofs.Network Proofs.NetworkMore.
+From ACN Require Import Base.Num Model.Current Model.Network Proofs.Current Proofs.Network Proofs.NetworkMore Proofs.NetworkPhase.
 Import ListNotations.
 Open Scope nat_scope.
 
@@ -258,6 +258,56 @@ Theorem C12_aggregate_order_irrelevant : forall (regs regs' : list (station * Q 
   res_equiv (qcc (sched_for w xf (stations n)) C T n) (qcc (sched_for w xf (stations n')) C T n').
 Proof. exact aggregate_order_irrelevant. Qed.
 Print Assumptions C12_aggregate_order_irrelevant.
+
+(* ===== the default, phase-aware query (linear=False) =====
+   cos/sin of the registered angles are inputs `trig` (one pair per entry of _phase_angles); the answer is the
+   pair (real parts, imaginary parts).  Same subset law: whenever the full query answers, the answer for (C, T) is
+   its rows {i | name_i in C} in network order x columns T in the given order; otherwise the same exception. *)
+Theorem C12_subset_phase : forall (A : Type) (zero : A) (add mul : A -> A -> A)
+    (ops : list (op A)) (X : sched A) (C : option (list string)) (T : option (list Z)) (trig : list (A * A)),
+  let n := run zero ops net0 in
+  constraint_current_phase zero add mul X C T trig n =
+  match sel_cols (xw X) T with
+  | None => Err "IndexError"%string
+  | Some js =>
+      match constraint_current_phase zero add mul X None None trig n with
+      | Err e => Err e
+      | Ok (fre, fim) =>
+          let pick full := map (fun i => map (fun j => nth j (nth i full []) None) js)
+                               (constraint_indices C (cnames n)) in
+          Ok (pick fre, pick fim)
+      end
+  end.
+Proof. exact (@subset_phase_of_full). Qed.
+Print Assumptions C12_subset_phase.
+
+(* Full-strength statement "on every reachable network with a constraint, a rectangular schedule with one row
+   per station and in-range periods is answered" is REFUTED when a station id was registered twice
+   (Props/C12_findings.v).  Guarded version: every station registered exactly once, then any constraint
+   operations — the query is answered and entry (i, j) is  sum_k coeff(current_i, s_k) * X[k][j] * (cos_k, sin_k). *)
+Theorem C12_subset_phase_values_partial : forall (A : Type) (zero : A) (add mul : A -> A -> A)
+    (regs : list (station * Q * Q)) (ops : list (op A)) (X : sched A) C T (trig : list (A * A)),
+  NoDup (reg_ids regs) -> forallb (no_register (A := A)) ops = true ->
+  List.length (xrows X) = List.length regs ->
+  let n := run zero (map reg_op regs ++ ops) net0 in
+  let g := grun (map reg_op regs ++ ops) (ghost0 (A := A)) in
+  constraint_current_phase zero add mul X C T trig n =
+  match sel_cols (xw X) T with
+  | None => Err "IndexError"%string
+  | Some js =>
+      if g_ever g then
+        let entry part i j :=
+          match nth_error (g_live g) i with
+          | Some x => Some (lin_sum_w zero add mul (map (fun s => coeff zero (l_cur x) s) (stations n))
+                                      (column zero X j) (map part trig))
+          | None => Some zero
+          end in
+        Ok (map (fun i => map (entry fst i) js) (constraint_indices C (cnames n)),
+            map (fun i => map (entry snd i) js) (constraint_indices C (cnames n)))
+      else Err "TypeError"%string
+  end.
+Proof. exact (@ccp_values_unique_registration). Qed.
+Print Assumptions C12_subset_phase_values_partial.
 
 (* ===== registration guard =====
    The code tests `self.constraint_matrix is not None`.  Once an add_constraint / update_constraint has been
